@@ -1,3 +1,6 @@
+import AquaVerif.Proofs.RunTotalExample
+import AquaVerif.Proofs.RunTotalCatalogue
+import AquaVerif.Proofs.RunTotal
 import AquaVerif.Proofs.CropCalendar
 import AquaVerif.Proofs.CropFull
 import AquaVerif.Proofs.Clock
@@ -286,6 +289,25 @@ theorem yield_formation_days_positive {F : Fn α} {c : CalGDDIn α} {temps : Lis
     (h0 : 0 ≤ c.hiStart) (hy : c.tupp - c.tbase ≤ c.yldForm)
     (hm : c.hiStart + c.yldForm ≤ c.maturity) : 0 < o.days.yldFormCD :=
   calendarInit_yldFormCD_pos h hb h0 hy hm
+
+/-- **Every run of a catalogue configuration terminates without raising** (over `ℝ`): `CatCfg`
+(crops from the generated table, profile and initial water content built by the model of the
+initialisation), the geometric / management premises `CatTotOK` and the named exception `TopOK`.
+No premise on the weather, none on computed values. -/
+theorem catalogue_run_terminates {cfg : RunCfg ℝ} {Zcap Zev : ℝ} (h : CatCfg cfg)
+    (hX : CatTotOK cfg Zcap Zev)
+    (hTop : TopOK Response.realFn cfg.W0.soil.zTop cfg.init.cells) :
+    (∃ s₀ s, runInit cfg = .ok s₀ ∧
+      runModel Response.realFn HarvestIndexReal.realTrig cfg cfg.clock.n s₀ = .ok s ∧
+      s.finished = true ∧ RunReach Response.realFn HarvestIndexReal.realTrig cfg s) ∧
+    ∀ s, RunReach Response.realFn HarvestIndexReal.realTrig cfg s → s.finished = false →
+      (∃ s', performR Response.realFn HarvestIndexReal.realTrig cfg s = .ok s') ∧
+      ∀ k, 1 ≤ k → ∃ s', runModel Response.realFn HarvestIndexReal.realTrig cfg k s = .ok s' :=
+  catalogue_run_total h hX hTop
+
+/-- No catalogue crop has `SxBot = 0` (the Python-float division of `root_development`). -/
+theorem catalogue_sx_bot_positive : ∀ c ∈ Aqua.Generated.cropFullTable, 0 < c.sxBot :=
+  Aqua.catalogue_sxBot_pos
 
 end field
 
